@@ -38,7 +38,7 @@ CLAIMED = {
  "C10": ("Intersect exactness (node set, root bounds, edge bounds), idempotence, commutativity, absorption, empty, edge merging on shared nodes, "
          "per-attribute precedence for every Node field; symbolic ill-formed operands 2+2 nodes.", "3.C10"),
  "C15": ("NodeGraph / NodeSiblings / NodeDescendants against a reference bounded-reachability fixpoint evaluated symbolically alongside the code; "
-         "node set, edge bounds, root list, monotonicity in depth; termination by unwinding assertion. N<=3 general (4 in the fan-out family), E<=2, T<=2.", "3.C15"),
+         "node set, edge bounds, root list, monotonicity in depth; termination by unwinding assertion. N<=3 general (4 in the fan-out family), E<=2 (3 in the interleaved family), T<=2; a second extraction from the same list.", "12.3"),
  "C16": ("Plain lookups return exactly the matching nodes (pointer identity, each once) for symbolic ids/names/identifiers incl. repeated ids; "
          "GetMatchingNode against the documented rule for every map iteration order (order is a decision variable), incl. the three-node tie-break cases.", "12.3"),
  "C07": ("Serialize of every registered driver (CycloneDX 1.4/1.5, SPDX 2.3) on arbitrary Document values built by decisions (absent metadata / node list / "
@@ -49,7 +49,7 @@ CLAIMED = {
  "C11": ("Write-set monitor: every store (incl. appends into spare capacity, sort swaps, copy) into memory reachable from the operands of every listed "
          "read-only operation is a violation on that path, with a value-changing witness from the solver; order-relevant data symbolic; 16 operand shapes (spare capacity, parallel edges, two contacts, file nodes with arbitrary text).", "12.3"),
  "C12": ("Havoc-and-compare: every mutable location reachable from a copy/result gets a fresh symbolic value and the source's snapshot must be provably "
-         "unchanged (and vice versa), for Node, Edge, Person, ExternalReference, NodeList copies, Union/Intersect results, and call histories.", "3.C12"),
+         "unchanged (and vice versa), for Node, Edge, Person, ExternalReference, NodeList copies (dates over the whole range), Union/Intersect results (also with a side without roots and parallel edges), and call histories (an earlier copy used as operand later).", "12.3"),
  "C13": ("Node/Edge/NodeList equality vs same-content (multisets, dates to the second) per schema field, symmetry, transitivity, checksum agreement, "
          "permutation invariance; flattened-string collisions are a listed known finding keyed by a region predicate; outside it equality must discriminate.", "3.C13"),
  "C14": ("Node.Diff: nil iff the attribute has the same content (sets / seconds), count, and reconstruction of the second node from Added/Removed, per "
